@@ -798,14 +798,17 @@ Section Proxy.
     else incrementlostrqs sv1.
 
   (* the `for (i = 0; i < MAX_REQUESTS; i++)` loop over occupied slots *)
-  Fixpoint slots_pass (fuel : nat) (st : state) (s : nat) (i : nat) (now : Z) (do_resend putfail : bool) : state * list out :=
+  (* tick: seconds the clock advances during each transmission (0 in the ordinary runs; the time of a slot is read
+     when the slot is visited, not when the pass starts) *)
+  Fixpoint slots_pass (fuel : nat) (st : state) (s : nat) (i : nat) (now tick : Z) (do_resend putfail : bool) : state * list out :=
     match fuel with
     | O => (st, [])
     | S f =>
         let sv := get_server st s in
         let sc := srvconf_of s in
         let sl := get_slot sv (N.of_nat i) in
-        let next (st : state) (o : list out) := let '(st', o') := slots_pass f st s (S i) now do_resend putfail in (st', o ++ o') in
+        let next_at (now' : Z) (st : state) (o : list out) := let '(st', o') := slots_pass f st s (S i) now' tick do_resend putfail in (st', o ++ o') in
+        let next := next_at now in
         match sl_rq sl with
         | None => next st []
         | Some h =>
@@ -831,7 +834,7 @@ Section Proxy.
                         let sv2 := set_slot (set_wr sv1 (s_laststatsrv sv1) (min_timeout (s_timeout sv1) expiry) (s_newrq sv1) (s_conreset sv1) (s_statsrv_requested sv1))
                                      (N.of_nat i) (mkSlot (Some h) tries expiry) in
                         let sv3 := if putfail then incrementlostrqs sv2 else sv2 in
-                        next (set_server st1 s sv3) [OTx s (N.of_nat i) buf]
+                        next_at (now + tick)%Z (set_server st1 s sv3) [OTx s (N.of_nat i) buf]
                     end
                 end
             end
@@ -844,14 +847,17 @@ Section Proxy.
 
   (* one loop iteration after the wait returned; a probe draws 16 random bytes for its authenticator.
      Returns the unused random bytes *)
-  Definition writer_iteration (st : state) (s : nat) (now : Z) (rnd : bytes) (putfail : bool) : state * list out * bytes :=
+  Definition count_tx (o : list out) : Z := Z.of_nat (length (filter (fun x => match x with OTx _ _ _ => true | _ => false end) o)).
+
+  Definition writer_iteration (st : state) (s : nat) (now tick : Z) (rnd : bytes) (putfail : bool) : state * list out * bytes :=
     let sv := get_server st s in
     let sc := srvconf_of s in
     let do_resend := s_conreset sv in
     let sv := if s_conreset sv then set_times sv now (s_lastreply sv) else sv in
     let requested := if do_resend || (s_laststatsrv sv <? s_lastrcv sv)%Z then false else s_statsrv_requested sv in
     let st := set_server st s (set_wr sv (s_laststatsrv sv) (s_timeout sv) false false requested) in
-    let '(st, o1) := slots_pass 256 st s 0 now do_resend putfail in
+    let '(st, o1) := slots_pass 256 st s 0 now tick do_resend putfail in
+    let now := (now + tick * count_tx o1)%Z in       (* gettimeofday again after the table was walked *)
     let sv := get_server st s in
     let mode := s_statsrv sv in
     let last := Z.max (s_lastrcv sv) (s_laststatsrv sv) in
@@ -886,13 +892,14 @@ Section Proxy.
     (set_server st s (set_wr sv (s_laststatsrv sv) 0%Z (s_newrq sv) (s_conreset sv) (s_statsrv_requested sv)), [OWake t]).
 
   (* releasing the parked writer once: iterations run until it parks again (newrq clear) *)
-  Fixpoint writer_release (fuel : nat) (st : state) (s : nat) (now : Z) (rnd : bytes) (putfail : bool) : state * list out :=
+  Fixpoint writer_release (fuel : nat) (st : state) (s : nat) (now tick : Z) (rnd : bytes) (putfail : bool) : state * list out :=
     match fuel with
     | O => (st, [])
     | S f =>
-        let '(st, o1, rnd') := writer_iteration st s now rnd putfail in
+        let '(st, o1, rnd') := writer_iteration st s now tick rnd putfail in
+        let now := (now + tick * count_tx o1)%Z in
         if s_newrq (get_server st s) then
-          let '(st, o2) := writer_release f st s now rnd' putfail in (st, o1 ++ o2)
+          let '(st, o2) := writer_release f st s now tick rnd' putfail in (st, o1 ++ o2)
         else
           let '(st, o2) := prewait st s now (nth 0 rnd' 0) in (st, o1 ++ o2)
     end.
